@@ -25,6 +25,12 @@ CLAIMED["C15"] = dict(tech="property-based testing (rapid) with encoding/json as
 CLAIMED["C19"] = dict(tech="property-based testing (rapid): round trip through both XML writers, the standard library's encoding/xml as independent parser, and the library's reader; metamorphic sibling interleaving",
       text="Generated-input search: schema + data with every leaf type and text containing markup characters, quotes, ]]>, leading/trailing/inner white space and non-ASCII, written by WriteXMLDoc (pretty and compact) and WriteXML. The output must be one well-formed document with a single root for encoding/xml, decode to the data, and read back through ReadXMLDoc into the same tree (order of entries and leaf-list elements kept). A harness-written document whose sibling elements are interleaved must read as the same tree.",
       note="Characters XML 1.0 cannot carry (C0 controls except tab/LF/CR) are outside the domain. Single-namespace schemas so far.", ref="7 C19")
+CLAIMED["C18"] = dict(tech="stateful property-based testing (rapid): generated edit histories against a harness tree model, with direct inspection of the stores' backing Go data",
+      text="Generated-history search: 1-8 operations {upsert fragment, delete container / whole list / list entry, replace container / entry} on the reference store, map-backed nodeutil.Reflect (map- and slice-backed lists) and map-backed nodeutil.Node (map- and slice-backed lists). After every step the backing data equals the model (siblings, other entries, ancestors untouched; nothing of a replaced node survives), keys are unique and each entry sits under the key its key leaves hold; deleted entries are no longer found, remaining ones are.",
+      note="Struct-backed stores are not generated (schemas are random; Go struct types are not). Replace is compared as a keyed set because ReplaceFrom is delete + insert.", ref="7 C18")
+CLAIMED["C09"] = dict(tech="stateful property-based testing (rapid): histories of case-switching upserts against a harness model",
+      text="Generated-history search: 1-8 upserts of independently drawn fragments into schemas with several choices per container, nested choices, choices in lists, cases holding leaves/containers/lists, on the reference store and map-backed Reflect/Node stores, from reference or JSON sources. After every step no choice may hold two cases in the store's backing data and the data must equal the model.",
+      note="Reads of the selected case are covered by C04's export check; rpc-input choices are not generated.", ref="7 C09")
 NOT_YET = {}
 props = [json.loads(l) for l in open(os.path.join(ROOT, "properties.jsonl"))]
 checks, na = [], []
